@@ -177,8 +177,22 @@ def lake_build(targets, timeout=3000, locked=False):
     with Lock("lake"):
         return go()
 
+RDSMODEL_COPY = None   # set by a check to its private copy of the driver (taken inside the lake critical section)
+
 def rdsmodel():
+    if RDSMODEL_COPY and os.path.exists(RDSMODEL_COPY):
+        return RDSMODEL_COPY
     return os.path.join(LEAN, ".lake", "build", "bin", "rdsmodel")
+
+def pin_rdsmodel(workdir):
+    """copy the freshly built driver so that a concurrently running check of another tree cannot swap it"""
+    global RDSMODEL_COPY
+    src = os.path.join(LEAN, ".lake", "build", "bin", "rdsmodel")
+    if os.path.exists(src):
+        os.makedirs(workdir, exist_ok=True)
+        dst = os.path.join(workdir, "rdsmodel")
+        shutil.copy2(src, dst)
+        RDSMODEL_COPY = dst
 
 FORBIDDEN = re.compile(r"\bsorry\b|\badmit\b|^\s*axiom\s|native_decide|bv_decide|implemented_by|\bunsafe\s|maxHeartbeats\s+0|ofReduceBool")
 
